@@ -10,6 +10,7 @@ import (
 	"github.com/relab/hotstuff"
 	"github.com/relab/hotstuff/core"
 	"github.com/relab/hotstuff/internal/proto/hotstuffpb"
+	"github.com/relab/hotstuff/internal/proto/kauripb"
 	"github.com/relab/hotstuff/network"
 	"google.golang.org/grpc/metadata"
 	"google.golang.org/grpc/peer"
@@ -75,7 +76,25 @@ type simSender struct {
 	fetchCtr uint64
 }
 
-var _ core.Sender = (*simSender)(nil)
+var _ core.KauriSender = (*simSender)(nil)
+
+// SendContributionToParent sends the (partial) aggregate up the Kauri tree.
+func (s *simSender) SendContributionToParent(view hotstuff.View, sig hotstuff.QuorumSignature) {
+	tr := s.nd.cfg.Tree()
+	if tr == nil {
+		return
+	}
+	parent, ok := tr.Parent()
+	if !ok {
+		return
+	}
+	c := &kauripb.Contribution{ID: uint32(s.nd.id), Signature: hotstuffpb.QuorumSignatureToProto(sig), View: uint64(view)}
+	s.w.probe("kauri-contribution-sent")
+	for _, f := range s.w.hooks.onContribution {
+		f(s.nd, view, sig)
+	}
+	s.w.send(s.nd, parent, "contrib", c)
+}
 
 func (s *simSender) targets() []hotstuff.ID {
 	var ids []hotstuff.ID
@@ -101,6 +120,11 @@ func (s *simSender) targets() []hotstuff.ID {
 
 func (s *simSender) Propose(p *hotstuff.ProposeMsg) {
 	s.w.reg.add(p.Block, s.nd)
+	if tr := s.nd.cfg.Tree(); tr != nil && s.sub != nil {
+		// Kauri starts its aggregation wait timer (a sleeping goroutine) right after forwarding the proposal
+		nd := s.nd
+		s.w.after(tr.WaitTime()+time.Duration(nd.slot+1)*time.Nanosecond, "kauri-wait", func() { s.w.scheduleProcess(nd, 0) })
+	}
 	if s.w.adv != nil && s.w.adv.onPropose(s.nd, p) {
 		return // the adversary took over dissemination
 	}
@@ -334,6 +358,8 @@ func (w *World) encode(m *Msg) (err error) {
 		pm = hotstuffpb.SyncInfoToProto(v.SyncInfo)
 	case hotstuff.TimeoutMsg:
 		pm = hotstuffpb.TimeoutMsgToProto(v)
+	case *kauripb.Contribution:
+		pm = v
 	case proto.Message:
 		pm = v
 	default:
@@ -373,13 +399,24 @@ func (nd *Node) inject(m *Msg) {
 				return
 			}
 			nd.svc.Timeout(ctx, pb)
+		case "contrib":
+			pb := &kauripb.Contribution{}
+			if proto.Unmarshal(m.wire, pb) != nil {
+				return
+			}
+			nd.el.AddEvent(pb) // what kauriServiceImpl.SendContribution does
 		}
 		return
 	}
 	// struct mode: what the RPC handler would have put on the event loop
 	switch v := m.val.(type) {
+	case *kauripb.Contribution:
+		nd.el.AddEvent(v)
 	case hotstuff.ProposeMsg:
 		v.ID = m.fromID
+		if nd.cfg.HasKauriTree() && v.Block != nil {
+			v.ID = v.Block.Proposer() // the Kauri server trusts the proposer named in the (relayed) proposal
+		}
 		nd.el.AddEvent(v)
 	case hotstuff.VoteMsg:
 		v.ID = m.fromID
